@@ -826,20 +826,20 @@ func ruleC11Normalise(c *Ctx, rule string) {
 	})
 	if mismatch != nil {
 		elementwise := false
-		core.EachInstr(eq, func(i ssa.Instruction) {
-			call, ok := i.(*ssa.Call)
+		for _, fi := range c.familyInstrs(eq) {
+			call, ok := fi.I.(*ssa.Call)
 			if !ok || call.Call.StaticCallee() != eq {
-				return
+				continue
 			}
-			if !mismatch.Block().Succs[0].Dominates(call.Block()) {
-				return
+			if !inRegion(fi, mismatch.Block().Succs[0]) {
+				continue
 			}
 			a, ok1 := call.Call.Args[0].(*ssa.Call)
 			b, ok2 := call.Call.Args[1].(*ssa.Call)
 			if ok1 && ok2 && core.CalleeKey(&a.Call) == "reflect.Value.Index" && core.CalleeKey(&b.Call) == "reflect.Value.Index" {
 				elementwise = true
 			}
-		})
+		}
 		c.R.Check(elementwise, rule, "array-vs-slice:element-wise", c.pos(mismatch), "under a kind mismatch, a Go array and a Go slice are compared element-wise", "a kind mismatch always yields false: a Go array never equals the slice holding the same JSON array")
 	}
 }
@@ -851,7 +851,7 @@ func ruleC11CaseCoverage2(c *Ctx, rule string) {
 	if eq == nil {
 		return
 	}
-	sx, sy := subjectSet(eq, eq.Params[0]), subjectSet(eq, eq.Params[1])
+	sx, sy := c.subjectsDeep(eq, eq.Params[0]), c.subjectsDeep(eq, eq.Params[1])
 	kfx := KindFlow(eq, func(v ssa.Value) bool { return sx[v] }, nil)
 	// explicit panics: only for kinds outside the JSON-shaped domain
 	jsonShaped := Kinds(kBool, kString, kSlice, kArray, kMap, kStruct, kInterface, kPointer, kInvalid)
@@ -866,21 +866,22 @@ func ruleC11CaseCoverage2(c *Ctx, rule string) {
 	})
 	// recursion on elements: lengths first, missing keys tested
 	n := 0
-	core.EachInstr(eq, func(i ssa.Instruction) {
-		call, ok := i.(*ssa.Call)
+	for _, fi := range c.familyInstrs(eq) {
+		fi := fi
+		call, ok := fi.I.(*ssa.Call)
 		if !ok || call.Call.StaticCallee() != eq {
-			return
+			continue
 		}
 		a, ok1 := call.Call.Args[0].(*ssa.Call)
 		b, ok2 := call.Call.Args[1].(*ssa.Call)
 		if !ok1 || !ok2 {
-			return
+			continue
 		}
 		ka, kb := core.CalleeKey(&a.Call), core.CalleeKey(&b.Call)
 		switch {
 		case ka == "reflect.Value.Index" && kb == "reflect.Value.Index":
 			n++
-			c.R.Check(guardedByLenEquality(call, sx, sy), rule, fmt.Sprintf("elements#%d:length-first", n), c.pos(call), "elements are compared only after the lengths were found equal", "array elements are compared without a preceding test that the lengths are equal: a shorter array equals a longer one with the same prefix (or Index panics)")
+			c.R.Check(guardedByLenEqualityFam(fi, sx, sy), rule, fmt.Sprintf("elements#%d:length-first", n), c.pos(call), "elements are compared only after the lengths were found equal", "array elements are compared without a preceding test that the lengths are equal: a shorter array equals a longer one with the same prefix (or Index panics)")
 		case kb == "reflect.Value.MapIndex" || ka == "reflect.Value.MapIndex":
 			n++
 			mi := b
@@ -888,7 +889,7 @@ func ruleC11CaseCoverage2(c *Ctx, rule string) {
 				mi = a
 			}
 			valid := false
-			for _, g := range guardsOf(call) {
+			for _, g := range famGuards(fi) {
 				if gc, ok := g.Cond.(*ssa.Call); ok && g.Pol && core.CalleeKey(&gc.Call) == "reflect.Value.IsValid" && gc.Call.Args[0] == mi {
 					valid = true
 				}
@@ -930,10 +931,11 @@ func ruleC11CaseCoverage2(c *Ctx, rule string) {
 				}
 			}
 			c.R.Check(missingFalse, rule, fmt.Sprintf("members#%d:missing-key-unequal", n), c.pos(call), "a key missing from the other object yields false", "when the key is missing from the other object the comparison does not return false: objects of the same size with different key sets compare equal")
-			c.R.Check(guardedByLenEquality(call, sx, sy), rule, fmt.Sprintf("members#%d:length-first", n), c.pos(call), "members are compared only after the sizes were found equal", "object members are compared without a preceding size test: an object equals any superset of it")
+			c.R.Check(guardedByLenEqualityFam(fi, sx, sy), rule, fmt.Sprintf("members#%d:length-first", n), c.pos(call), "members are compared only after the sizes were found equal", "object members are compared without a preceding size test: an object equals any superset of it")
 		}
-	})
-	c.R.Floor(rule, "element/member recursions", n, 3)
+	}
+	// one element recursion (arrays and slices may share it) and one member recursion at least
+	c.R.Floor(rule, "element/member recursions", n, 2)
 	// identity shortcuts only after the length test
 	core.EachInstr(eq, func(i ssa.Instruction) {
 		ret, ok := i.(*ssa.Return)
@@ -963,7 +965,11 @@ func ruleC11CaseCoverage2(c *Ctx, rule string) {
 }
 
 func guardedByLenEquality(i ssa.Instruction, sx, sy map[ssa.Value]bool) bool {
-	for _, g := range guardsOf(i) {
+	return guardedByLenEqualityFam(famInstr{I: i}, sx, sy)
+}
+
+func guardedByLenEqualityFam(fi famInstr, sx, sy map[ssa.Value]bool) bool {
+	for _, g := range famGuards(fi) {
 		bo, ok := g.Cond.(*ssa.BinOp)
 		if !ok {
 			continue
@@ -996,10 +1002,11 @@ func ruleC12DecidedByEqual(c *Ctx) {
 	// enum and const: calls of equality with the instance, keyword value from Schema.Enum / Schema.Const
 	for _, kw := range []string{"Schema.Enum", "Schema.Const"} {
 		var call *ssa.Call
-		core.EachInstr(m.E, func(i ssa.Instruction) {
-			cl, ok := i.(*ssa.Call)
+		var callFI famInstr
+		for _, fi := range c.familyInstrs(m.E) {
+			cl, ok := fi.I.(*ssa.Call)
 			if !ok || cl.Call.StaticCallee() != eq {
-				return
+				continue
 			}
 			var other ssa.Value
 			if isSame(cl.Call.Args[0]) {
@@ -1007,12 +1014,13 @@ func ruleC12DecidedByEqual(c *Ctx) {
 			} else if isSame(cl.Call.Args[1]) {
 				other = cl.Call.Args[0]
 			} else {
-				return
+				continue
 			}
 			if vo, ok := other.(*ssa.Call); ok && core.CalleeKey(&vo.Call) == "reflect.ValueOf" && c.mentionsField(vo.Call.Args[0], kw, 8) {
-				call = cl
+				call, callFI = cl, fi
 			}
-		})
+		}
+		_ = callFI
 		if call == nil {
 			c.R.Bad(rule, kw+":uses-equality", c.P.Pos(m.E.Pos()), kw+" is not decided by the equality function applied to the keyword value and the instance")
 			continue
@@ -1069,12 +1077,27 @@ func ruleC12DecidedByEqual(c *Ctx) {
 		return
 	}
 	body := region.Block().Succs[0]
-	inRegion := func(b *ssa.BasicBlock) bool { return body.Dominates(b) }
+	// the hash table is filled either in the evaluator itself or in a helper called from the keyword's region
+	var bucketUpdate *ssa.MapUpdate
+	for _, fi := range c.familyInstrs(m.E) {
+		if mu, ok := fi.I.(*ssa.MapUpdate); ok && inRegion(fi, body) {
+			bucketUpdate = mu
+		}
+	}
+	if bucketUpdate == nil {
+		c.R.Bad(rule, "uniqueItems:buckets", c.pos(region), "items are not recorded in a hash table")
+		return
+	}
+	F := bucketUpdate.Parent()
+	inReg := func(b *ssa.BasicBlock) bool { return F != m.E || body.Dominates(b) }
 	nFail := 0
-	core.EachInstr(m.E, func(i ssa.Instruction) {
+	core.EachInstr(F, func(i ssa.Instruction) {
 		ret, ok := i.(*ssa.Return)
-		if !ok || !inRegion(ret.Block()) || ret.Block() == m.E.Recover {
+		if !ok || !inReg(ret.Block()) || ret.Block() == F.Recover {
 			return
+		}
+		if F != m.E && !blockReturnsError(ret.Block()) && !blockReturnsErrorDeep(ret.Block()) {
+			return // the helper's success exit
 		}
 		nFail++
 		byEq := false
@@ -1093,16 +1116,6 @@ func ruleC12DecidedByEqual(c *Ctx) {
 	})
 	c.R.Floor(rule, "failure exits of uniqueItems", nFail, 1)
 	// every item is recorded in its bucket on every non-failing path through the loop body, and compared with every bucket member
-	var bucketUpdate *ssa.MapUpdate
-	core.EachInstr(m.E, func(i ssa.Instruction) {
-		if mu, ok := i.(*ssa.MapUpdate); ok && inRegion(mu.Block()) {
-			bucketUpdate = mu
-		}
-	})
-	if bucketUpdate == nil {
-		c.R.Bad(rule, "uniqueItems:buckets", c.pos(region), "items are not recorded in a hash table")
-		return
-	}
 	mt, _ := bucketUpdate.Map.Type().Underlying().(*types.Map)
 	_, isSlice := mt.Elem().Underlying().(*types.Slice)
 	c.R.Check(isSlice, rule, "uniqueItems:bucket-is-list", c.pos(bucketUpdate), "each hash value maps to the list of all items with that hash", "a hash value maps to a single item ("+shortTypeName(mt.Elem())+"): a later item is compared only with the first item of its hash, so a duplicate of a second colliding item is missed")
@@ -1214,6 +1227,18 @@ func ruleC12Hash(c *Ctx) {
 		key := core.CalleeKey(&call.Call)
 		if strings.HasPrefix(key, "hash/maphash.Hash.Write") {
 			return true
+		}
+		// helper functions of the hasher that write (writeUint as a package function)
+		if callee := call.Call.StaticCallee(); callee != nil && callee != w && callee != h && c.P.InPkg(callee) {
+			wr := false
+			core.EachInstr(callee, func(i ssa.Instruction) {
+				if c2, ok := i.(*ssa.Call); ok && strings.HasPrefix(core.CalleeKey(&c2.Call), "hash/maphash.Hash.Write") {
+					wr = true
+				}
+			})
+			if wr {
+				return true
+			}
 		}
 		// helper closures of the hasher that write (writeUint)
 		for _, src := range traceSources(call.Call.Value) {
@@ -1398,8 +1423,8 @@ func ruleC12Seed(c *Ctx) {
 		return
 	}
 	var make_, set *ssa.Call
-	core.EachInstr(m.E, func(i ssa.Instruction) {
-		if call, ok := i.(*ssa.Call); ok {
+	for _, fi := range c.familyInstrs(m.E) {
+		if call, ok := fi.I.(*ssa.Call); ok {
 			switch core.CalleeKey(&call.Call) {
 			case "hash/maphash.MakeSeed":
 				make_ = call
@@ -1407,7 +1432,11 @@ func ruleC12Seed(c *Ctx) {
 				set = call
 			}
 		}
-	})
+	}
+	if make_ != nil && set != nil && make_.Parent() != set.Parent() {
+		c.R.Unknown(rule, "seed", c.pos(make_), "the seed is drawn and used in different functions; the flow between them is not modelled")
+		return
+	}
 	if make_ == nil || set == nil {
 		c.R.Unknown(rule, "seed", "", "the evaluator does not use maphash.MakeSeed/SetSeed; another hashing scheme is not modelled")
 		return
